@@ -16,6 +16,10 @@ checks = {
  "C11": dict(harness="htree", design="§6 C11",
    text="Seeded exploration of the real role tree (aggregator/include/task/call roles, SafeState/SafeStatus, ParentAdapter) under 1-4 concurrent updaters of distinct leaves, a final round of 2-3 single racing updates; after every round every node is compared with a reference fold written from the statement, and what the ParentAdapter subscriber received is checked for lost or invented ERROR.",
    note="Trees are generated programmatically through verif-tagged constructors (not loaded from templates); every leaf receives a status in the first round; one updater per leaf at a time."),
+ "C16": dict(harness="hdev", design="§6 C16", level="fault_enumeration",
+   technique="deterministic simulation with exhaustive fault enumeration: depth-first walk of the complete decision tape tree (transition x mode x real device state x outcome of every device step) over the real transitioner and RPC client against a simulated device",
+   text="Complete enumeration (both tiers) of every transition from every believed and real device state with every outcome of every device step (done, refused, error state, request lost, reply lost, wrong event, wrong trigger) against a reference FairMQ / O2 device; oracles: reported state is the image of the real device state or nothing is claimed, no error only if the device reached the destination, single refused step at an intermediate state is rolled back to the source when the device accepts the rollback.",
+   note="The device is a model written from the FairMQ state machine documentation (stable states); the gRPC transport is replaced by an injected pb.OccClient (verif hook)."),
 }
 
 na = {
